@@ -100,6 +100,7 @@ var (
 		leaf("gasUsed"), leaf("totalScore"), {t: "trf", name: "txsRootFeatures"}, leaf("stateRoot"), leaf("receiptsRoot"), leaf("signature"),
 		{t: "ext", name: "extension"}}}
 	sTxItem   = &schema{t: "txitem", name: "tx", reset: "tx"}
+	sTxList   = &schema{t: "list", name: "txs", of: sTxItem}
 	sBlock    = &schema{t: "struct", reset: "block", fields: []*schema{sHeader, {t: "list", name: "txs", of: sTxItem}}}
 	sEvent    = &schema{t: "struct", fields: []*schema{leaf("address"), {t: "list", name: "topics", of: leaf("topic")}, leaf("data")}}
 	sTransfer = &schema{t: "struct", fields: []*schema{leaf("sender"), leaf("recipient"), leaf("amount")}}
@@ -118,9 +119,9 @@ func full(pre, nm string) string {
 	return pre + "." + nm
 }
 
-// diffAt returns the name of the innermost named node at which a and b differ, plus a description of a's form there.
-// pre/nm follow Sites() of CodecCases.tla.
-func diffAt(s *schema, a, b *item, pre, nm string) string {
+// diffAll1 returns the names of ALL innermost named nodes at which a and b differ (a second non-canonical site must not
+// hide behind the first), each with a description of a's form there. pre/nm follow Sites() of CodecCases.tla.
+func diffAll1(s *schema, a, b *item, pre, nm string) []string {
 	if s.reset != "" {
 		pre, nm = "", s.reset
 	}
@@ -145,7 +146,7 @@ func diffAt(s *schema, a, b *item, pre, nm string) string {
 		}
 		return "other-form"
 	}
-	here := func() string { return me + "=" + form() }
+	here := func() []string { return []string{me + "=" + form()} }
 	switch s.t {
 	case "struct", "list":
 		ka, oka := a.children()
@@ -153,32 +154,37 @@ func diffAt(s *schema, a, b *item, pre, nm string) string {
 		if !oka || !okb || len(ka) != len(kb) {
 			return here()
 		}
+		var all []string
 		for i := range ka {
 			if string(ka[i].raw) == string(kb[i].raw) {
 				continue
 			}
-			if s.t == "list" {
-				return diffAt(s.of, ka[i], kb[i], pre, s.of.name)
+			switch {
+			case s.t == "list":
+				all = append(all, diffAll1(s.of, ka[i], kb[i], pre, s.of.name)...)
+			case i < len(s.fields):
+				all = append(all, diffAll1(s.fields[i], ka[i], kb[i], me, s.fields[i].name)...)
+			default:
+				return here()
 			}
-			if i < len(s.fields) {
-				return diffAt(s.fields[i], ka[i], kb[i], me, s.fields[i].name)
-			}
-			return here()
 		}
-		return here() // same children, different header
+		if len(all) == 0 {
+			return here() // same children, different header
+		}
+		return all
 	case "txitem", "rcitem":
 		legacy, typed := sLegacyTx, sDynTx
 		if s.t == "rcitem" {
 			legacy, typed = sReceipt, sReceipt
 		}
 		if a.list && b.list {
-			return diffAt(legacy, a, b, pre, nm)
+			return diffAll1(legacy, a, b, pre, nm)
 		}
 		if !a.list && !b.list && len(a.payload) > 1 && len(b.payload) > 1 && a.payload[0] == b.payload[0] {
 			ia, resta, oka := splitItem(a.payload[1:])
 			ib, restb, okb := splitItem(b.payload[1:])
 			if oka && okb && len(resta) == 0 && len(restb) == 0 {
-				return diffAt(typed, ia, ib, pre, nm)
+				return diffAll1(typed, ia, ib, pre, nm)
 			}
 		}
 		return here()
@@ -186,11 +192,11 @@ func diffAt(s *schema, a, b *item, pre, nm string) string {
 	return here()
 }
 
-// diagnose names the first place where the accepted input and its re-encoding differ.
-func diagnose(kind string, x, re []byte) (place string) {
+// diagnoseAll names every place where the accepted input and its re-encoding differ (deduplicated, in input order).
+func diagnoseAll(kind string, x, re []byte) (places []string) {
 	defer func() {
 		if r := recover(); r != nil {
-			place = fmt.Sprintf("%s=undiagnosed", kind)
+			places = []string{fmt.Sprintf("%s=undiagnosed", kind)}
 		}
 	}()
 	var s *schema
@@ -205,12 +211,14 @@ func diagnose(kind string, x, re []byte) (place string) {
 			s = legacy
 		} else {
 			if len(a) < 2 || len(b) < 2 || a[0] != b[0] {
-				return kind + "=type-byte"
+				return []string{kind + "=type-byte"}
 			}
 			s, a, b = typed, a[1:], b[1:]
 		}
 	case "txrlp":
 		s = sTxItem
+	case "txlist":
+		s = sTxList
 	case "rcrlp":
 		s = sRcItem
 	case "header":
@@ -221,8 +229,15 @@ func diagnose(kind string, x, re []byte) (place string) {
 	ia, ra, oka := splitItem(a)
 	ib, rb, okb := splitItem(b)
 	if !oka || !okb || len(ra) != 0 || len(rb) != 0 {
-		return kind + "=top-level"
+		return []string{kind + "=top-level"}
 	}
-	root := map[string]string{"txbin": "tx", "txrlp": "tx", "rcbin": "receipt", "rcrlp": "receipt", "header": "header", "block": "block"}[kind]
-	return diffAt(s, ia, ib, "", root)
+	root := map[string]string{"txbin": "tx", "txrlp": "tx", "txlist": "txs", "rcbin": "receipt", "rcrlp": "receipt", "header": "header", "block": "block"}[kind]
+	seen := map[string]bool{}
+	for _, p := range diffAll1(s, ia, ib, "", root) {
+		if !seen[p] {
+			seen[p] = true
+			places = append(places, p)
+		}
+	}
+	return places
 }
